@@ -12,7 +12,85 @@ package eventbus
 //@ event OnPersistComplete := call Observability.OnPersistComplete
 //@ event cancel := call context.CancelFunc
 
+//@ event handlerCall := call handler
+//@ event panicHandlerCall := call PanicHandler
+//@ event OnHandlerStart := call Observability.OnHandlerStart
+//@ event OnHandlerComplete := call Observability.OnHandlerComplete
+
+//@ event deliver := call callHandlerWithContext
+//@ event spawn := call go:PublishContext$1
+//@ event claim := call atomic.CAS.ok
+//@ event filterCall := call func(T) bool
+//@ event beforeHook := call PublishHook#1
+//@ event afterHook := call PublishHook#2
+//@ event beforeHookCtx := call PublishHookContext#1
+//@ event afterHookCtx := call PublishHookContext#2
+//@ event OnPublishStart := call Observability.OnPublishStart
+//@ event OnPublishComplete := call Observability.OnPublishComplete
+
 // ------------------------------------------------------------- callbacks
+// Filters and publish hooks: may re-enter the bus, must be called unlocked;
+// assumed not to panic (the statement of C05 speaks of handlers only).  A
+// filter's answer is a function of (filter, event): accepts(fn, ev).
+//@ callback func(T) bool(fn, ev)
+//@   effect reentrant
+//@   unlocked
+//@   ensures result == accepts(fn, ev)
+//@ callback PublishHook(fn, eventType, event)
+//@   effect reentrant
+//@   unlocked
+//@ callback PublishHookContext(fn, ctx, eventType, event)
+//@   effect reentrant
+//@   unlocked
+//@ method Observability.OnPublishStart(obs, ctx, eventType, event)
+//@   effect opaque
+//@   ensures result != nil && descends(result, ctx)
+//@ method Observability.OnPublishComplete(obs, ctx, eventType)
+//@   effect opaque
+// User handlers: every function type the dispatch switch can call.  They may
+// panic, may re-enter the bus, and must be invoked with no bus lock held.
+//@ callback Handler[T](fn, ev)
+//@   alias handler
+//@   effect reentrant
+//@   maypanic
+//@   unlocked
+//@ callback ContextHandler[T](fn, ctx, ev)
+//@   alias handler
+//@   effect reentrant
+//@   maypanic
+//@   unlocked
+//@ callback func(T)(fn, ev)
+//@   alias handler
+//@   effect reentrant
+//@   maypanic
+//@   unlocked
+//@ callback func(context.Context, T)(fn, ctx, ev)
+//@   alias handler
+//@   effect reentrant
+//@   maypanic
+//@   unlocked
+//@ callback func(any)(fn, ev)
+//@   alias handler
+//@   effect reentrant
+//@   maypanic
+//@   unlocked
+//@ callback func(context.Context, any)(fn, ctx, ev)
+//@   alias handler
+//@   effect reentrant
+//@   maypanic
+//@   unlocked
+//@ callback func(context.Context, any) error(fn, ctx, ev)
+//@   alias handler
+//@   effect reentrant
+//@   maypanic
+//@   unlocked
+//@ callback PanicHandler(fn, event, handlerType, panicValue)
+//@   effect reentrant
+//@ method Observability.OnHandlerStart(obs, ctx, eventType, async)
+//@   effect opaque
+//@   ensures result != nil && descends(result, ctx)
+//@ method Observability.OnHandlerComplete(obs, ctx, duration, err)
+//@   effect opaque
 //@ callback PersistenceErrorHandler(fn, event, eventType, err)
 //@   effect reentrant
 //@   unlocked
@@ -27,8 +105,14 @@ package eventbus
 //@ method Observability.OnPersistComplete(obs, ctx, duration, err)
 //@   effect opaque
 
+//@ immutable internalHandler.handler internalHandler.handlerType internalHandler.eventType internalHandler.once
+//@ immutable internalHandler.async internalHandler.sequential internalHandler.acceptsContext internalHandler.filter
+//@ level internalHandler.mu 0
+//@ immutable EventBus.shards EventBus.panicHandler EventBus.beforePublish EventBus.afterPublish EventBus.beforePublishCtx EventBus.afterPublishCtx
 //@ immutable EventBus.store EventBus.persistenceErrorHandler EventBus.persistenceTimeout EventBus.observability
 
+//@ guarded shard.handlers by shard.mu
+//@ level shard.mu 1
 //@ guarded EventBus.lastOffset by EventBus.storeMu
 //@ level EventBus.storeMu 1
 
@@ -56,3 +140,109 @@ package eventbus
 //@   ensures [C13.ctx] bus.store != nil && jsonOK(event) ==> descends(lastarg(Append, 1, Iface), ctx)
 //@   at unlock:EventBus.storeMu assert [C13.offset.cs] (saveErr != nil ==> bus.lastOffset == acq(bus.lastOffset))
 //@        && (saveErr == nil ==> bus.lastOffset == offset)
+
+// handlerTyped(h): the registry invariant's fact about a registered handler —
+// its function value is non-nil and has one of the two types Subscribe /
+// SubscribeContext store.
+//@ def handlerTyped(h) payload(h.handler) != 0 && h.handlerType != nil &&
+//@     (dynType(h.handler) == typeOf(Handler[T]) || dynType(h.handler) == typeOf(ContextHandler[T]))
+
+//@ func callHandlerWithContext
+//@   props C05 C07 C20 C01 C08
+//@   requires h != nil && ctx != nil && handlerTyped(h)
+//@   ensures [invoke.once] cnt(handlerCall) == 1
+//@   ensures [invoke.args] lastarg(handlerCall, 0) == payload(h.handler) &&
+//@        (dynType(h.handler) == typeOf(Handler[T]) ==> lastarg(handlerCall, 1) == event) &&
+//@        (dynType(h.handler) == typeOf(ContextHandler[T]) ==> lastarg(handlerCall, 2) == event)
+//@   ensures [C08.ctx.passed] {C08} dynType(h.handler) == typeOf(ContextHandler[T]) ==>
+//@        descends(lastarg(handlerCall, 1, Iface), ctx)
+//@   ensures [C05.panic.handlerOnce] {C05} cnt(panicHandlerCall) == ite(recovered() && panicHandler != nil, 1, 0)
+//@   ensures [C05.panic.args] {C05} recovered() && panicHandler != nil ==>
+//@        payload(lastarg(panicHandlerCall, 1, Iface)) == event && dynType(lastarg(panicHandlerCall, 1, Iface)) == typeOf(T)
+//@        && lastarg(panicHandlerCall, 2) == h.handlerType && lastarg(panicHandlerCall, 3, Iface) != nil
+//@   ensures [C20.obs.pair] {C20} cnt(OnHandlerStart) == ite(obs != nil, 1, 0) && cnt(OnHandlerComplete) == ite(obs != nil, 1, 0)
+//@   ensures [C20.obs.ctx] {C20} obs != nil ==> lastarg(OnHandlerStart, 1, Iface) == ctx &&
+//@        lastarg(OnHandlerComplete, 1, Iface) == lastres(OnHandlerStart, Iface)
+//@   ensures [C20.obs.args] {C20} obs != nil ==> lastarg(OnHandlerStart, 2, String) == eventTypeName && lastarg(OnHandlerStart, 3, Bool) == async
+//@   ensures [C20.obs.err] {C20} obs != nil ==> ((lastarg(OnHandlerComplete, 3, Iface) != nil) <==> recovered())
+//@   at call:handler assert [C07.seq.held] {C07} h.sequential ==> held(&h.mu) == 2
+//@   at call:Observability.OnHandlerComplete assert [C20.obs.order] {C20} cnt(handlerCall) == 1
+
+// ------------------------------------------------------------- registry
+//@ def shardIdx(t) fnv32a(tname(t)) % 32
+//@ def BusInv(bus) (forall i int :: 0 <= i && i < 32 ==> bus.shards[i] != nil)
+//@ def regTyped(h, t) payload(h.handler) != 0 && h.handlerType != nil && h.eventType == t &&
+//@     (h.filter == nil || payload(h.filter) != 0) &&
+//@     (dynType(h.handler) == typeOfWith(Handler[T], T, t) || dynType(h.handler) == typeOfWith(ContextHandler[T], T, t))
+
+//@ def dDeliver() cnt(deliver) - iterold(cnt(deliver))
+//@ def dSpawn() cnt(spawn) - iterold(cnt(spawn))
+//@ def dClaim() cnt(claim) - iterold(cnt(claim))
+//@ def filterOK(h, ev) h.filter == nil || dynType(h.filter) != typeOf(func(T) bool) || accepts(payload(h.filter), ev)
+
+// RegInv: what shard.mu protects.
+//@ lockinv shard.mu(s) [RegInv] {C01,C02} s.handlers != nil &&
+//@     (forall t type, i int :: 0 <= i && i < len(s.handlers[t]) ==> s.handlers[t][i] != nil && regTyped(s.handlers[t][i], t))
+
+//@ func (*EventBus).getShard
+//@   props C01 C02
+//@   requires bus != nil && BusInv(bus)
+//@   ensures [functional] result == bus.shards[shardIdx(eventType)] && result != nil
+
+//@ func PublishContext
+//@   props C01 C04 C05 C06 C08 C20
+//@   requires bus != nil && ctx != nil && BusInv(bus)
+//@   ensures [C08.hooks.once] {C08} cnt(beforeHook) == ite(bus.beforePublish != nil, 1, 0) && cnt(beforeHookCtx) == ite(bus.beforePublishCtx != nil, 1, 0)
+//@        && cnt(afterHook) == ite(bus.afterPublish != nil, 1, 0) && cnt(afterHookCtx) == ite(bus.afterPublishCtx != nil, 1, 0)
+//@   at call:PublishHook#1 assert [C08.before.first] {C08} cnt(deliver) + cnt(spawn) == 0
+//@   at call:PublishHookContext#1 assert [C08.beforeCtx.first] {C08} cnt(deliver) + cnt(spawn) == 0
+//@   at call:PublishHook#1 assert [C08.before.args] {C08} true
+//@   at call:PublishHook#2 assert [C08.after.last] {C08} rangeindex__1 == len(handlersCopy)
+//@   at call:PublishHookContext#2 assert [C08.afterCtx.last] {C08} rangeindex__1 == len(handlersCopy)
+//@   ensures [C08.hooks.args] {C08} (bus.beforePublish != nil ==> lastarg(beforeHook, 1) == typeOf(T) && payload(lastarg(beforeHook, 2, Iface)) == event)
+//@        && (bus.afterPublish != nil ==> lastarg(afterHook, 1) == typeOf(T) && payload(lastarg(afterHook, 2, Iface)) == event)
+//@        && (bus.beforePublishCtx != nil ==> lastarg(beforeHookCtx, 2) == typeOf(T) && payload(lastarg(beforeHookCtx, 3, Iface)) == event && descends(lastarg(beforeHookCtx, 1, Iface), ctx))
+//@        && (bus.afterPublishCtx != nil ==> lastarg(afterHookCtx, 2) == typeOf(T) && payload(lastarg(afterHookCtx, 3, Iface)) == event && descends(lastarg(afterHookCtx, 1, Iface), ctx))
+//@   ensures [C20.publish.pair] {C20} cnt(OnPublishStart) == ite(bus.observability != nil, 1, 0) && cnt(OnPublishComplete) == ite(bus.observability != nil, 1, 0)
+//@   ensures [C20.publish.ctx] {C20} bus.observability != nil ==> lastarg(OnPublishStart, 1, Iface) == ctx &&
+//@        lastarg(OnPublishComplete, 1, Iface) == lastres(OnPublishStart, Iface)
+//@   at call:Observability.OnPublishStart assert [C20.publish.first] {C20} cnt(beforeHook) + cnt(beforeHookCtx) + cnt(deliver) + cnt(spawn) == 0
+//@   at call:Observability.OnPublishComplete assert [C20.publish.last] {C20} rangeindex__1 == len(handlersCopy) &&
+//@        cnt(afterHook) == ite(bus.afterPublish != nil, 1, 0) && cnt(afterHookCtx) == ite(bus.afterPublishCtx != nil, 1, 0)
+//@   loop 1 invariant [idx] rangeindex < len(handlersCopy) && -1 <= rangeindex
+//@   loop 1 invariant [copy.alloc] allocated(sarr(handlersCopy)) && sarr(handlersCopy) != sarr(onceHandlersToRemove)
+//@   loop 1 invariant [copy.stable] seqeq(handlersCopy, loopentry(handlersCopy))
+//@   loop 1 invariant [copy.reg] forall i int :: 0 <= i && i < len(handlersCopy) ==> handlersCopy[i] != nil && regTyped(handlersCopy[i], typeOf(T))
+//@   loop 1 invariant [hooks] {C08} cnt(beforeHook) == ite(bus.beforePublish != nil, 1, 0) && cnt(beforeHookCtx) == ite(bus.beforePublishCtx != nil, 1, 0)
+//@        && cnt(afterHook) == 0 && cnt(afterHookCtx) == 0 && cnt(OnPublishComplete) == 0 && cnt(OnPublishStart) == ite(bus.observability != nil, 1, 0)
+//@   loop 1 invariant [ctx] descends(ctx, old(ctx)) && ctx != nil && (bus.observability != nil ==> ctx == lastres(OnPublishStart, Iface))
+//@        && (bus.observability == nil ==> ctx == old(ctx))
+//@   loop 1 iter [C01.atmostonce] {C01,C02} dDeliver() + dSpawn() <= 1 && dDeliver() >= 0 && dSpawn() >= 0 && dClaim() >= 0 && dClaim() <= 1
+//@   loop 1 iter [C04.filterFirst] {C04,C01} !filterOK(h, event) ==> dDeliver() + dSpawn() == 0 && dClaim() == 0
+//@   loop 1 iter [C04.gate] {C04} (h.once ==> dDeliver() + dSpawn() <= dClaim()) && (!h.once ==> dClaim() == 0)
+//@   loop 1 iter [C01.async] {C01,C06} filterOK(h, event) && (h.once ==> dClaim() == 1) && h.async && !ctxSeenDone(ctx) ==> dSpawn() == 1 && dDeliver() == 0
+//@   loop 1 iter [C01.sync.live] {C01,C08} filterOK(h, event) && (h.once ==> dClaim() == 1) && !h.async && !ctxSeenDone(ctx) ==> dDeliver() == 1 && dSpawn() == 0
+//@   loop 1 iter [C08.cancel.sync] {C08} iterold(ctxSeenDone(ctx)) || doneAtEntry(ctx) ==> dDeliver() == 0 && dSpawn() == 0
+//@   loop 1 iter [C04.claimRuns] {C04} dClaim() == 1 ==> dDeliver() + dSpawn() == 1
+//@   loop 1 iter [C04.cancelled] {C04} doneAtEntry(ctx) ==> dClaim() == 0
+//@   loop 1 iter [C01.value] {C01,C08} (dDeliver() == 1 ==> lastarg(deliver, 0) == handlersCopy[rangeindex] && lastarg(deliver, 2) == event && lastarg(deliver, 1, Iface) == ctx
+//@           && lastarg(deliver, 3) == bus.panicHandler && lastarg(deliver, 4, Iface) == bus.observability && lastarg(deliver, 5, String) == eventTypeName && lastarg(deliver, 6, Bool) == false)
+//@        && (dSpawn() == 1 ==> lastarg(spawn, 0) == handlersCopy[rangeindex])
+//@   loop 1 iter [C04.retire] {C04,C01} len(onceHandlersToRemove) == iterold(len(onceHandlersToRemove)) + dClaim()
+//@        && (dClaim() == 1 ==> onceHandlersToRemove[len(onceHandlersToRemove)-1] == h)
+//@   loop 2 invariant [idx2] rangeindex__2 < len(onceHandlersToRemove) && -1 <= rangeindex__2
+//@   loop 3 invariant [idx3] rangeindex__3 < len(handlers__2) && -1 <= rangeindex__3
+
+// The goroutine started for an async handler.  It owns one credit of the
+// publish-local WaitGroup and one of bus.wg (both Add(1) precede `go`).
+//@ func PublishContext$1
+//@   props C04 C05 C06 C08 C20
+//@   requires token(&wg)
+//@   requires token(&bus.wg)
+//@   requires handler != nil && regTyped(handler, typeOf(T)) && bus != nil && ctx != nil
+//@   ensures [C06.runsIfLive] {C06,C04} !ctxSeenDone(ctx) ==> cnt(deliver) == 1
+//@   ensures [C08.cancel.entry] {C08} doneAtEntry(ctx) ==> cnt(deliver) == 0
+//@   ensures [once] cnt(deliver) <= 1
+//@   ensures [args] cnt(deliver) == 1 ==> lastarg(deliver, 0) == handler && lastarg(deliver, 1, Iface) == ctx && lastarg(deliver, 2) == event
+//@        && lastarg(deliver, 3) == bus.panicHandler && lastarg(deliver, 4, Iface) == bus.observability
+//@        && lastarg(deliver, 5, String) == eventTypeName && lastarg(deliver, 6, Bool) == true
